@@ -53,7 +53,7 @@ func (c *CheckConfig) defaults() {
 		c.SolverTimeoutMs = 20000
 	}
 	if c.Solver == "" {
-		c.Solver = "z3"
+		c.Solver = "z3-new"
 	}
 	if c.SampleCount == 0 {
 		c.SampleCount = 8
